@@ -9,7 +9,7 @@
 use crate::patch_archive::{
     PatchArchive, PatchArchiveHeader,
     block::{FilePatch, PatchArchiveEncodingInfo, PatchFileEntry, write_key, write_uint40_be},
-    error::PatchArchiveResult,
+    error::{PatchArchiveError, PatchArchiveResult},
     header::{STANDARD_BLOCK_SIZE_BITS, STANDARD_KEY_SIZE},
 };
 use binrw::BinWrite;
@@ -271,8 +271,14 @@ fn serialize_block_data(
     let mut data = Vec::new();
 
     for entry in entries {
-        // num_patches
-        data.push(entry.patches.len() as u8);
+        // num_patches (one byte; 0x00 is the end-of-block sentinel)
+        let num_patches = u8::try_from(entry.patches.len()).map_err(|_| {
+            PatchArchiveError::InvalidEntry(format!(
+                "file entry has {} patches, num_patches field holds at most 255",
+                entry.patches.len()
+            ))
+        })?;
+        data.push(num_patches);
 
         // target_ckey
         write_key(&mut data, &entry.target_ckey, header.file_key_size)?;
